@@ -90,6 +90,9 @@ def compare_tokens(a, b):
     return None
 
 
+EDGE_FORMS = ['f\'{a:{f"{b:{c:{d}}}"}}\'', 'f\'{o:{a:{f"{b:{c}}"}}}\'', "f'{a:{b:{c}}}'", "f'{a:{b}{c:{d}}}'", 'f"{x:{f\'{y:{z}}\'}}"', 'f\'{f"{a:{b:{c}}}":{d:{e}}}\'', 'f"{f\'a\'} {x:\'>3}"', 'f"{f\'a\':\'>5}"', 'f"""{f"a"} {x:">3}"""', 'f\'{f"b"}{y:"^4}\'', "f'''{f'{q}'} {x:'<2}'''", 'rf"{f\'a\'}{x:\'>3}\\d"', 'f"{rf\'\\d\'} {x:\'>3}"', "f'{{{x:>5}}}'", "f'{x:{y:>5}}'", "f'{x:{y:{z}}}'", "f'{{{x}}}'", "f'{x:>5}}}'", "f'{{{x:{w}}}}}}'", "f'}}{x:}}}'"]
+
+
 def strip_empty_spec_constants(tree):
     """CPython 3.12.1 appends Constant('') to a format spec that ends in a nested field; an empty
     constant in a spec means nothing, so it is dropped from both trees before comparing"""
@@ -165,6 +168,9 @@ def check(rec, case):
 
 
 def search(rec, ctx):
+    for lit in ctx.shard(EDGE_FORMS):
+        for tmpl in ("x = {S}\n", "print({S}, {S})\n", "if c:\n    y = {S}\nz = 1\n", "v = ({S}\n     'tail')\n"):
+            check(rec, {"src": tmpl.replace("{S}", lit), "stream": "edge-forms", "features": ["edge-form"]})
     def gen(rnd):
         g = FGen(rnd, nonascii=rnd.random() < 0.1)
         src = g.statement()
